@@ -684,6 +684,85 @@ def check_merge(ctx, res, case):
         ctx.batch.add_many(reqs, cb)
 
 
+def check_nested_full(ctx, res, case, rng, nests_def=None):
+    """complete sampling (both samples): the nested logit generated on the sample equals the nested
+    logit on the full choice set (numerical relation through the real engine; no Lean model of the
+    MEV terms)"""
+    import pandas as pd
+    import biogeme.database as bdb
+    from biogeme.expressions import Variable, Beta
+    from biogeme import models
+    from biogeme.nests import OneNestForNestedLogit, NestsForNestedLogit
+    from biogeme.sampling_of_alternatives import ChoiceSetsGeneration, GenerateModel
+
+    if nests_def is None:
+        mev_ids = sorted(set().union(*[set(s) for s in case['mev']['segments']]))
+        pool = list(mev_ids)
+        rng.shuffle(pool)
+        n_nests = rng.randint(1, 2)
+        nests_def = []
+        for j in range(n_nests):
+            size = rng.randint(2, max(2, len(pool) // 2)) if len(pool) >= 2 else 0
+            members, pool = pool[:size], pool[size:]
+            if len(members) >= 2:
+                nests_def.append((rng.choice([1.0, 1.25, 1.5, 2.0, 3.0]), sorted(members)))
+    nests_def = [(float(mu), list(m)) for mu, m in nests_def]
+    if not nests_def:
+        return
+    sub = {'kind': 'nested', 'case': slim(case), 'nests': nests_def}
+
+    def mk_nests():
+        return NestsForNestedLogit(choice_set=list(case['ids']),
+                                   tuple_of_nests=tuple(OneNestForNestedLogit(nest_param=Beta(f'MU{j}', mu, 1.0, None, 0), list_of_alternatives=list(m), name=f'n{j}')
+                                                        for j, (mu, m) in enumerate(nests_def)))
+
+    try:
+        with core.scratch():
+            context = build_context(case)
+            gen = ChoiceSetsGeneration(context)
+            np.random.seed(case['np_seed'])
+            db = gen.sample_and_merge(recycle=False)
+            ll = GenerateModel(context).get_nested_logit(mk_nests())
+            sampled = [float(v) for v in np.atleast_1d(ll.get_value_c(database=db, prepare_ids=True))]
+        # reference on the full choice set
+        cols = case['cols']
+        comb = dict((n, f) for n, f in case['combined'])
+        data = {case['choice_col']: [float(c) for c in case['choices']]}
+        for j, c in enumerate(case['icols']):
+            data[c] = [r[j] for r in case['irows']]
+        for p, vals in enumerate(case['values']):
+            for j, c in enumerate(cols):
+                data[f'F{p}__{c}'] = [vals[j]] * len(case['choices'])
+
+        def subst(f, p, depth=0):
+            if f[0] == 'v':
+                if f[1] in cols:
+                    return ['v', f'F{p}__{f[1]}']
+                if f[1] in comb and depth < 5:
+                    return subst(comb[f[1]], p, depth + 1)
+                return f
+            if f[0] in ('c', 'b'):
+                return f
+            return [f[0]] + [subst(x, p, depth) for x in f[1:]]
+
+        with core.scratch():
+            fdb = bdb.Database('full', pd.DataFrame(data))
+            V = {int(i): build_expr(subst(case['utility'], p)) for p, i in enumerate(case['ids'])}
+            full = models.lognested(V, None, mk_nests(), Variable(case['choice_col']))
+            ref = [float(v) for v in np.atleast_1d(full.get_value_c(database=fdb, prepare_ids=True))]
+    except Exception as e:  # noqa: BLE001
+        res.count({'nested_raises': sub['nests'], 'seed': case['np_seed']})
+        res.violate(f'get_nested_logit / lognested raises on a valid context: {type(e).__name__}: {e}', sub, core.exc_kind(e), 'log likelihoods',
+                    where='GenerateModel.get_nested_logit')
+        return
+    for r, (a, b) in enumerate(zip(sampled, ref)):
+        res.count({'nested': nests_def, 'segments': case['segments'], 'row': r, 'seed': case['np_seed']}, nontrivial=True)
+        res.tally('nested_full_sample_equiv_checked')
+        if not close(a, b, 1e-8, 1e-8):
+            res.violate('complete sampling: log likelihood of get_nested_logit() differs from the nested logit on the full choice set',
+                        {**sub, 'row': r}, a, b, where='GenerateModel.get_nested_logit')
+
+
 # ----------------------------------------------------------------------------- validation streams
 
 
@@ -873,6 +952,17 @@ def check(ctx) -> Result:
     for _ in range(ctx.n(40, 500)):
         case = gen_case(rng, complete=True)
         run_case(ctx, res, case, 1)
+    # nested logit generated on complete samples (numerical relation only)
+    done = 0
+    for _ in range(ctx.n(60, 900)):
+        if done >= ctx.n(10, 150):
+            break
+        case = gen_case(rng, complete=True, with_mev=True, size=rng.randint(4, 10))
+        if sorted(set().union(*[set(x) for x in case['mev']['segments']])) != sorted(case['ids']):
+            continue
+        case['share'] = False
+        check_nested_full(ctx, res, case, rng)
+        done += 1
     for _ in range(ctx.n(150, 2000)):
         case, kind, raw = gen_context_case(rng)
         check_context(ctx, res, case, kind, raw)
@@ -920,6 +1010,10 @@ def search(ctx, res, broken):
         if r2.violations:
             res.violations.extend(r2.violations[:1])
             return
+
+
+def _replay_nested(shim, res, sub):
+    check_nested_full(shim, res, sub['case'], None, nests_def=sub['nests'])
 
 
 def replay(ctx, obj):
@@ -974,6 +1068,10 @@ def replay(ctx, obj):
     elif kind == 'merge':
         check_merge(shim, r, sub['case'])
         out.update({'property_fails': bool(r.violations), 'violations': r.violations[:2]})
+    elif kind == 'nested':
+        r2 = Result()
+        _replay_nested(shim, r2, sub)
+        out.update({'property_fails': bool(r2.violations), 'violations': r2.violations[:2]})
     elif kind == 'context':
         check_context(shim, r, sub['case'], sub['fault'], sub['raw'])
         out.update({'property_fails': bool(r.violations), 'violations': r.violations[:2]})
